@@ -167,6 +167,7 @@ def run(ctx, rep):
     rep.extra['reader_sequences'] = sum(len(v) for v in rg.values())
     rep.extra['member_pairs'] = npairs
     run_closure_rule(P, rep)
+    nsec_decode_rule(P, rep)
     run_expansion_rule(P, rep)
     primitive_roundtrip_rule(P, rep)
     info_roundtrip_rule(P, rep)
@@ -917,3 +918,41 @@ def split_count_capacity_rule(P, rep, rid):
     rep.check(hi == cap and lo == 0, rid, 'decoded split count accepted for 0..%d' % cap, t.loc(),
               'accepts %d..%d, split_map[] holds %d' % (lo, hi, cap) if hi == cap and lo == 0 else 'the reader accepts %d..%d but split_map[] holds %d entries and the configuration / writer use all of them: a content file written for %d split files passes its CRC and is then rejected by every command' % (lo, hi, cap, cap),
               function='state_read_content', construct='split count bound')
+
+
+def nsec_decode_rule(P, rep, rid='R-C10-10'):
+    """the sub-second part of a time-stamp is saved as value + 1 with 0 for "unknown" (STAT_NSEC_INVALID): in the reader, the
+    variable that reaches the constructor is set to -1 exactly when the decoded field is 0 and decremented exactly otherwise --
+    no other test of the field may decide between the two stores (999 999 999 is saved as 1 000 000 000 and must come back)."""
+    from ..guards import guards_of
+    rep.rule(rid, 'state_read_content: the decoded sub-second field becomes STAT_NSEC_INVALID under the single test "field == 0" and field - 1 under its negation; no other condition on the field selects between them', 2)
+    c = P.fn('state_read_content')
+    rep.analysed(c)
+    inv = []; dec = []
+    for bi in range(len(c.blocks)):
+        for x in c.blocks[bi]:
+            if x.op != 'store':
+                continue
+            dst = c.expr(x.ops[1]); src = c.expr(x.ops[0]).replace(' ', '')
+            if 'mtime_nsec' not in dst or not dst.startswith('&'):
+                continue
+            var = dst[1:]
+            g = [(t.replace(' ', ''), p) for t, p in guards_of(c, x) if var in t]
+            if src == '-1':
+                inv.append((x, var, g))
+            elif src in ('(%s+-1)' % var, '(%s-1)' % var, '(-1+%s)' % var):
+                dec.append((x, var, g))
+    if not inv or not dec:
+        raise AnalysisBroken('state_read_content: decode of the sub-second time-stamp not found (%d invalid stores, %d decrements)' % (len(inv), len(dec)))
+    zero_false = lambda var: {(var, False), ('%s!=0' % var, False), ('%s==0' % var, True)}
+    zero_true = lambda var: {(var, True), ('%s!=0' % var, True), ('%s==0' % var, False)}
+    for x, var, g in inv:
+        ok = len(g) == 1 and g[0] in zero_false(var)
+        rep.check(ok, rid, 'state_read_content: %s = STAT_NSEC_INVALID exactly when the saved field is 0' % var, x.loc(),
+                  'conditions on the field: %s' % g + ('' if ok else ' -- a saved value other than 0 is decoded as "unknown" (or 0 is not): the time-stamp read back differs from the one saved'),
+                  function='state_read_content', construct='invalid marker of %s' % var)
+    for x, var, g in dec:
+        ok = len(g) == 1 and g[0] in zero_true(var)
+        rep.check(ok, rid, 'state_read_content: %s = field - 1 for every non-zero saved field' % var, x.loc(),
+                  'conditions on the field: %s' % g + ('' if ok else ' -- some non-zero saved values are not decoded as value - 1'),
+                  function='state_read_content', construct='decrement of %s' % var)
